@@ -334,6 +334,13 @@ func (ex *Exec) conv(fr *frame, dstT, srcT types.Type, x Value, pos token.Pos) V
 				}
 				return t
 			}
+			if !t.IsConst() && t.sort.W <= 64 {
+				// small-range integers (counts, lengths) are case-split before entering
+				// floating point, which keeps the float arithmetic on them concrete
+				if lo, hi, ok := urange(t); ok && hi-lo < 64 {
+					t = tt.BV(t.sort.W, ex.concretize(t, "small-range integer converted to float64"))
+				}
+			}
 			return tt.FFromInt(t, isSigned(srcT))
 		case d.Info()&types.IsString != 0:
 			switch v := x.(type) {
